@@ -33,12 +33,13 @@ CHECK = "check_case"
 MODEL = "model_of"
 RULE = ("run cases: (a) every leaf validator (instance_of / in_ / lt,le,ge,gt / min_len / max_len / "
         "matches_re x {default,fullmatch,search,match} / is_callable over the FULL parameter pools) x "
-        "every value of the heterogeneous pool (quick: a third of it, rotating with the seed); (b) thorough only: EVERY "
-        "expression of depth <= 2 over a reduced leaf pool (optional, not_ x 3 exc_types, and_/or_ of two, "
-        "deep_iterable with/without iterable validator, deep_mapping) x a reduced value pool; (c) seeded "
+        "every value of the heterogeneous pool (76 values); (b) EVERY expression of depth <= 2 over a reduced "
+        "leaf pool (18 leaves in thorough, 4 rotating with the seed in quick: optional, not_ x 3 exc_types, "
+        "and_/or_ of two, deep_iterable with/without iterable validator, deep_mapping, empty and_/or_) x a "
+        "reduced value pool of 24; (c) seeded "
         "random expression trees to depth 4 over all constructors (incl. the list sugar of optional / "
-        "deep_iterable, nested and_/or_, not_ with 13 exc_types spellings and custom messages) x 6 "
-        "values each (pool values and generated containers of them: lists, tuples, dicts, sets, frozensets, "
+        "deep_iterable, nested and_/or_, not_ with 14 exc_types spellings and custom messages) x "
+        "7 values each chosen from 28 candidates to spread over the observed outcome classes (pool values and generated containers of them: lists, tuples, dicts, sets, frozensets, "
         "hostile iterables/mappings). The documented atomic predicates are run directly in Python for every "
         "(sub)value a sub-validator can be applied to and handed to the Coq model as its oracle table; the "
         "real validator is called on the value; Coq compares outcome classes, None result and value-unchanged. "
@@ -999,7 +1000,8 @@ def gen_vspec(rng, nest=2, want_container=0.45):
 
 REDUCED_LEAVES = [["inst", 0], ["inst", 1], ["inst", 10], ["in", 0], ["in", 6], ["in", 2],
                   ["num", "gt", 1], ["num", "le", 1], ["num", "lt", 6], ["minlen", 2], ["maxlen", 3],
-                  ["re", 2, None], ["re", 9, "search"], ["call"]]
+                  ["re", 2, None], ["re", 9, "search"], ["call"],
+                  ["in", 3], ["num", "ge", 0], ["re", 1, "match"], ["inst", 9]]
 REDUCED_VALUES = [["p", 0], ["p", 1], ["p", 3], ["p", 9], ["p", 13], ["p", 15], ["p", 18], ["p", 19],
                   ["p", 22], ["p", 28], ["p", NONE_IDX], ["p", 31], ["p", 42], ["p", 38], ["p", 54],
                   ["p", 65], ["p", 68],
@@ -1053,11 +1055,7 @@ def generate(tier, seed):
     cases = [mk_exc_case()]
     # (a) every leaf x the value pool
     allv = [["p", i] for i in range(len(VALUES))]
-    if tier == "quick":
-        step = 3
-        vals = [allv[i] for i in range(seed % step, len(allv), step)]
-    else:
-        vals = allv
+    vals = allv
     for leaf in all_leaves():
         cases.extend(mk_run_cases(leaf, vals))
     # (b) every expression of depth <= 2 over the reduced pools
@@ -1068,14 +1066,14 @@ def generate(tier, seed):
         for t in depth2_trees(_rotate(REDUCED_LEAVES, seed, 4)):
             cases.extend(mk_run_cases(t, REDUCED_VALUES))
     # (c) random trees
-    for _ in range(350 if tier == "quick" else 4000):
+    for _ in range(3500 if tier == "quick" else 36000):
         t = gen_tree(rng, rng.choice([2, 3, 3, 4, 4]))
         wc = 0.75 if deep_depth(t) else 0.35
         cases.extend(mk_run_cases(t, pick_values(t, [gen_vspec(rng, 2, wc) for _ in range(28)], 7)))
     # eq cases: the findings' reproducers first, then random ones
     for t, var in TARGETED_EQ:
         cases.append(mk_eq_case(t, var))
-    for _ in range(150 if tier == "quick" else 1500):
+    for _ in range(1200 if tier == "quick" else 9000):
         t = gen_tree(rng, rng.choice([1, 2, 3, 3]))
         n = n_params(t)
         var = [rng.choice([0, 1, 1, 2]) for _ in range(n)]
